@@ -400,6 +400,8 @@ theorem exec_kinv {β : Type} (c : Call β) (s : AbsState) (now : Int) (hc : Cal
   cases c with
   | now => exact ⟨h.addFalse (fun _ _ hf => hf) (fun _ hf => hf), trivial⟩
   | filterServers fs => exact ⟨h.addFalse (fun _ _ hf => hf) (fun _ hf => hf), trivial⟩
+  | scanServers fs => exact ⟨h.addFalse (fun _ _ hf => hf) (fun _ hf => hf), trivial⟩
+  | fetchServers as => exact ⟨h.addFalse (fun _ _ hf => hf) (fun _ hf => hf), trivial⟩
   | insGet id => exact ⟨h.addFalse (fun _ _ hf => hf) (fun _ hf => hf), trivial⟩
   | insAdd i =>
     exact ⟨(h.queue_mono (s' := s.insAdd now i) rfl (fun _ hq => hq)).addFalse (fun _ _ hf => hf) (fun _ hf => hf), trivial⟩
